@@ -778,6 +778,58 @@ def n8(led, rid, ctx):
     led.floor(rid, "predicate sites in value selectors", n, 18)
 
 
+def n11(led, rid, ctx):
+    """INDEX-SPACE: ProportionalDomainSize keeps the weights compact (swap_remove) and maps a weight
+    position to a variable position through weights_idx_to_variables; `variables` is only indexed
+    with a mapped position (or a position that ranges over the variables themselves)"""
+    lib = ctx.lib
+    fns = [f for f in lib.fns.values() if (f.self_adt or "").endswith("ProportionalDomainSize")
+           and "/tests" not in f.file and f.kind != "Closure"]
+    if not fns:
+        raise AnchorMissing("ProportionalDomainSize")
+    n = 0
+    for f in fns:
+        Rp = resolver(f)
+        for g in f.with_closures():
+            R = resolver(g)
+            capmap = {}
+            if g is not f:
+                for b in f.blocks:
+                    for st in b["stmts"]:
+                        if st["s"] == "assign" and st["rv"]["r"] == "closure" and st["rv"]["def"] == g.defn:
+                            e = Rp.rvalue(st["rv"])
+                            for i, cap in enumerate(e.b):
+                                fl = cap.fields()
+                                if fl:
+                                    capmap["arg1.%d" % i] = list(fl)[-1]
+
+            def container(e):
+                s_ = show(peel(e, calls=None)).replace("*", "").replace("&", "")
+                if s_ in capmap:
+                    return capmap[s_]
+                fl = peel(e, calls=None).fields()
+                return list(fl)[-1] if fl else None
+            for c in g.calls:
+                if c.name not in ("index", "index_mut", "get", "get_unchecked") or len(c.args) < 2:
+                    continue
+                if container(R.operand(c.args[0])) != "variables":
+                    continue
+                n += 1
+                idx = R.operand(c.args[1])
+                mapped = any(x.k == "call" and x.a.name in ("index", "get") and
+                             container(x.b[0]) == "weights_idx_to_variables" for x in idx.walk())
+                ranged = any(x.k == "agg" and (x.a or "").split("::")[-1] == "Range" and
+                             any(y.k == "call" and y.a.name == "len" and container(y.b[0]) == "variables"
+                                 for y in x.c[1].walk()) for x in idx.walk())
+                led.check(mapped or ranged, rid, "%s:variables[..]" % ((g.parent or g.defn).rsplit("::", 1)[-1]), c.span,
+                          "indexed through weights_idx_to_variables",
+                          "ProportionalDomainSize indexes `variables` with %s, a position in the compacted "
+                          "weight arrays: after a fixed variable has been swap-removed the two index spaces "
+                          "differ, and a variable that is already fixed is selected (the proposed decision is "
+                          "already decided)" % show(idx)[:80])
+    led.floor(rid, "indexings of ProportionalDomainSize::variables", n, 2)
+
+
 def run(ctx, led):
     run_rule(led, "N1", "every variable selector tests fixedness before proposing; filter/find "
              "closures keep the unfixed ones", n1, ctx)
@@ -802,3 +854,4 @@ def run(ctx, led):
              "unfixed variable (auto-classified, or table entry with arithmetic reason)", n8, ctx)
     from . import predrules
     run_rule(led, "N10", "Assignments::evaluate_predicate, by which a proposal is judged decided or not, is exact (shared with C02-U10)", predrules.evaluate_exact, ctx)
+    run_rule(led, "N11", "INDEX-SPACE: ProportionalDomainSize indexes its variables only through the weight→variable map", n11, ctx)
